@@ -1,3 +1,25 @@
 claim('C03', 'deterministic simulation: seeded schedule search with an in-run protocol state machine at every MuxObservable boundary',
       'Seeded search over random nested programs x key interleavings; the create/item/complete state machine and the live-slot-index uniqueness invariant are evaluated at every subscription of every MuxObservable (also inside tee_map and inside window operators) while the run proceeds. Failures are minimised and replayable.',
       TRUST, 'DESIGN.md 4/C03')
+MODEL_NOTE = TRUST + ' Models are a few lines each, written from the property text, and cross-checked by the differential checks (C01, C02, C08) on the same operators.'
+claim('C04', 'deterministic simulation: seeded key-interleaving search, partition model checked between taps',
+      'Seeded search over group_by programs (equal-not-identical keys, nesting under key-reusing parents) x interleavings of up to 12 parties; the observed records in front of group_by are mapped by a partition model to the expected sub-lifetimes (items, creation event, completion order) at the head of the inner pipeline, and the demultiplexed output must equal the inner pipeline\'s tail records in order.',
+      MODEL_NOTE, 'DESIGN.md 4/C04')
+claim('C05', 'deterministic simulation: seeded interleaving x (window, stride, length) knob search, timed window model',
+      'Seeded search over (window, stride) relations, stream lengths that wrap the slot ring several times, nesting under group_by/roll/split and interleaved keys; window membership, creation event, close event and close order are compared with the count-window model at the inner pipeline\'s head tap; source error/dispose at arbitrary events leave windows open.',
+      MODEL_NOTE, 'DESIGN.md 4/C05')
+claim('C06', 'deterministic simulation: seeded interleaving search, run-length model',
+      'Seeded search over predicates returning equal-but-not-identical values, run shapes and nesting x interleavings; segments (items, creation and close events) are compared with the maximal-run model.',
+      MODEL_NOTE, 'DESIGN.md 4/C06')
+claim('C07', 'deterministic simulation: virtual-time schedule search biased to the time-out boundaries, session model',
+      'Party scripts with delays drawn around the configured time-outs are resolved by the seeded scheduler on a virtual clock that stamps the items; non-empty windows per key and their close events are compared with the session model for every combination of active/inactive/closing/include, integer and datetime timestamps, top level and under group_by with interleaved keys.',
+      MODEL_NOTE, 'DESIGN.md 4/C07')
+claim('C09', 'deterministic simulation: seeded interleaving/lifetime search, fold model + streaming/reduce relation',
+      'Seeded search over accumulators (incl. mutating ones), value/factory seeds, reduce and terminator flags, emptied keys, interleaved keys and reused slots; records deep-copied at the tap behind the operator are compared with a left fold from a fresh seed per lifetime, and the same case is re-run with the reduce flag flipped (last streaming value == reduce value).',
+      MODEL_NOTE, 'DESIGN.md 4/C09')
+claim('C10', 'deterministic simulation (partial fit): seeded interleaving/slot-reuse search, list models; plain-observable twin',
+      'List models for first/last/take/distinct/distinct_until_changed/lag/pad_start/pad_end/start_with/batch per key lifetime under interleaving and slot reuse (None items, n in {0,1,..,>len}, emptied keys), and for first/last/take/distinct_until_changed/batch/sort/to_deque on an ordinary observable. The simulator contributes cross-key interference and slot reuse; the shape of one key\'s input is ordinary input generation.',
+      MODEL_NOTE, 'DESIGN.md 4/C10')
+claim('C11', 'deterministic simulation: every record stamped with the global source-event number, timed models',
+      'Every record at every tap carries the number of the source event being processed; for each operator instance whose values agree with its model the stamps must agree too (per-item/running = the item\'s event, completion-triggered = the key\'s completion event, batch = n-th item, window close = closing item). Nested windows, groups, tees; source error/dispose at arbitrary events.',
+      MODEL_NOTE, 'DESIGN.md 4/C11')
